@@ -4,3 +4,10 @@ use vstd::prelude::*;
 global size_of usize == 8;
 pub use crate::compression::CompressionType;
 pub use crate::error::Error;
+pub use crate::reader::{Reader, ReaderCursor};
+pub type Result<T, U = core::convert::Infallible> = core::result::Result<T, Error<U>>;
+/// R-transmute: stand-in for src/lib.rs `transmute_entry_to_static` (lifetime extension only; values unchanged)
+#[verifier::external_body]
+pub unsafe fn transmute_entry_to_static(key: &[u8], val: &[u8]) -> (r: (&'static [u8], &'static [u8]))
+    ensures r.0@ == key@, r.1@ == val@,
+{ unimplemented!() }
